@@ -101,6 +101,13 @@ check("C09",
       "provenance sums are validated by TraceReduce.tla.",
       TB, "TLC on the transcribed planner (exhaustive matrices) + trace validation of the real planner + closures of real graphs in TLC", "DESIGN.md section 5 C09")
 
+check("C10",
+      "MC_Scan (Scan.tla): the per-group state operator of scan_binary_op (both modes) is associative on block states and the folded prefix plus the "
+      "final step equals the sequential per-group NumPy scan position by position, for every input, every chunking (every prefix-tree shape) and bfill as "
+      "mirrored ffill; real dask_groupby_scan graphs are executed task by task with every grouped_reduce / chunk_scan / scan_binary_op output validated "
+      "by TraceScan.tla, and eager/chunked Returns are validated against Ref!RefScan.",
+      TB + " Positions whose label is missing are unspecified.", "TLC scan-operator model + task-level and API-level trace validation", "DESIGN.md section 5 C10")
+
 ALL = [f"C{n:02d}" for n in range(1, 21)]
 
 def main():
